@@ -21,10 +21,24 @@ Case kinds (`op`):
   fixed            inference.evaluate.eval_fixed end to end (rsatoolbox.rdm.compare and the
                    noise ceiling are replaced by the prescribed per-subject evaluations),
                    optionally followed by Result.to_dict -> result_from_dict
+  session          (round 4) ONE Result object queried repeatedly, in a random order, through every
+                   public route (test_all / test_pairwise / test_zero / test_noise with each test
+                   type, get_means / get_sem / get_ci / get_errorbars, the inference_util wrappers
+                   called with the object's own arrays, extract_variances with 1-D / 2-D / 3-D input
+                   for the same model count, to_dict -> result_from_dict, a second Result from the
+                   same input arrays): every answer is judged on its own against the stand-alone
+                   value on the ORIGINAL numbers; evaluations / variances / noise ceiling / derived
+                   variances / the arrays handed to the constructor are bit-identical after every
+                   call; answers handed out earlier do not change afterwards
 """
 import copy
 import itertools
+import json
 import math
+import os
+import random
+import subprocess
+import sys
 import warnings
 from fractions import Fraction as F
 
@@ -70,7 +84,11 @@ THEOREMS = [P + n for n in (
     'signedrank_swap', 'signedrank_subject_perm', 'signedrank_value_perm', 'signedrank_zero_discarded',
     'signedrank_total', 'wilcoxon_pair_symm', 'wilcoxon_pair_subject_perm', 'ranksum_mat_modelled',
     # round 3: confidence intervals, error bars, bootstrap tests on > 2-D evaluations
-    'ci_prop_cut', 'result_ci_ordered_symmetric', 'util_errorbars', 'bootstrap_nd_one_sided')]
+    'ci_prop_cut', 'result_ci_ordered_symmetric', 'util_errorbars', 'bootstrap_nd_one_sided',
+    # round 4: sessions (state that survives a call)
+    'input_write_leaves', 'no_hidden_state_leaves', 'call_stateless', 'session_calls_independent',
+    'session_call_at', 'session_order_irrelevant', 'session_sem_nonneg', 'inplace_write_breaks_later_call',
+    'coarse_memo_goes_stale')]
 RULE = ('cases come from one PRNG. dual/correct1d: variances in eighths, n_rdm/n_pattern None or '
         '2..30. contrast: m = 1..7. extract: covariance input 0/1/2/3-D (symmetric PSD in '
         'eighths, sometimes arbitrary), with/without the two noise-ceiling rows, 1..6 models. '
@@ -87,6 +105,11 @@ RULE = ('cases come from one PRNG. dual/correct1d: variances in eighths, n_rdm/n
         'scalar, per-sample (2,N) and evaluator-shaped (2,N,n_cv[,3]) ceilings, all three bootstrap tests '
         'compared for every dimension; ranksum cases have 2..11 subjects, generic values (exact null) or a '
         'dyadic grid with tied |differences| and zero differences, subjects without values (NaN p). '
+        'Round 4: sessions - one Result (hand-built 2..5-D bootstrap result incl. exactly 2-D float64 '
+        'evaluations, 3-D rank-sum data, or the object eval_fixed returns; counts recorded after construction '
+        'as the evaluators do in 30 %) queried by 8..16 calls drawn from every public route, test type, two '
+        'or more confidence levels, 1-D / 2-D / 3-D covariance inputs of the same model count, reload and '
+        'rebuild, in random order with repeats. '
         'A case is non-trivial unless it is an uncorrected single number or has '
         'one model without variances; distinct = distinct full input.')
 BRANCHES = ['dual:plain', 'dual:small_sample', 'dual:one_n', 'c1d:both', 'c1d:pattern', 'c1d:rdm',
@@ -105,7 +128,16 @@ BRANCHES = ['dual:plain', 'dual:small_sample', 'dual:one_n', 'c1d:both', 'c1d:pa
             'ranksum:generic', 'ranksum:ties', 'ranksum:zeros', 'ranksum:nan_subject', 'ranksum:small_n',
             'boot:ndim_onesided', 'boot:nc_nd', 'boot:ndim4', 'boot:ndim5', 'boot:ties',
             'result:ci_default', 'result:ci_pct', 'result:neg_effect', 'result:m_ge4_cov2d',
-            'result:dof1', 'result:tiny_var']
+            'result:dof1', 'result:tiny_var',
+            # round 4: one tag per kind of session step / precondition
+            'session:test_all', 'session:test_pairwise', 'session:test_zero', 'session:test_noise',
+            'session:util_all', 'session:util_single', 'session:get_means', 'session:get_sem', 'session:get_ci',
+            'session:errorbars', 'session:util_errorbars', 'session:fields', 'session:extract_1d',
+            'session:extract_2d', 'session:extract_3d', 'session:reload', 'session:rebuild',
+            'session:ttest', 'session:bootstrap', 'session:ranksum', 'session:fixed', 'session:late_count',
+            'session:evals_2d_f64', 'session:nc_per_sample', 'session:repeat', 'session:two_levels',
+            'session:after_extract_1d', 'session:after_test_noise_bootstrap', 'session:after_reload',
+            'session:late_reload_sem', 'session:ttest_then_bootstrap_nc']
 ASSUMPTIONS = [
     'numpy float64 evaluation of the closed-form formulas is within 1e-9 relative of the exact value',
     'scipy.stats.t.cdf / t.ppf (contract: monotone, F(0)=1/2, range [0,1]) are applied by the '
@@ -375,6 +407,12 @@ def _gen_extract(rng, tier):
 
 def generate(rng, tier):
     mult = 2 if tier == 'quick' else 60
+    # sessions first: their replays are self-contained (a whole call sequence), and they run before the
+    # single-call cases could have warmed any hidden cache.  Own PRNG stream (derived from the run's
+    # stream without consuming it) so that the single-call cases of a seed are the ones of round 3.
+    srng = random.Random('C06-sessions-' + repr(rng.getstate()[1][:4]))
+    for _ in range(64 if tier == 'quick' else 1500):
+        yield _gen_session(srng, tier)
     for _ in range(50 * mult):
         nr, npat = _opt_n(rng), _opt_n(rng)
         if rng.random() < 0.5:
@@ -401,7 +439,8 @@ def generate(rng, tier):
 
 def search(rng, tier):
     """failing-input search: the Result-level kinds first (they exercise every leaf too)"""
-    gens = [_gen_boot, _gen_result, _gen_fixed, _gen_extract, _gen_evaluator, _gen_ranksum]
+    gens = [_gen_session, _gen_boot, _gen_result, _gen_session, _gen_fixed, _gen_extract, _gen_evaluator,
+            _gen_ranksum]
     k = 0
     while True:
         yield gens[k % len(gens)](rng, tier)
@@ -559,7 +598,7 @@ def _run_evaluator(case):
     """the real evaluation function on the case's data; returns the Result (seeded draws)"""
     key = repr(sorted(case.items()))
     if key in _EVAL_CACHE:
-        return _EVAL_CACHE[key]
+        return copy.deepcopy(_EVAL_CACHE[key])      # never hand the same mutable object to two readers
     data = RDMs(np.array(case['data'], dtype=float))
     models = [ModelFixed(f'm{k}', np.array(v, dtype=float)) for k, v in enumerate(case['models'])]
     which, N = case['which'], case['N']
@@ -588,7 +627,7 @@ def _run_evaluator(case):
     if len(_EVAL_CACHE) > 20000:
         _EVAL_CACHE.clear()
     _EVAL_CACHE[key] = r
-    return r
+    return copy.deepcopy(r)
 
 
 def _evaluator_obs(case):
@@ -622,6 +661,8 @@ def run_impl(case):
         return _fixed_obs(case)
     if op == 'evaluator':
         return _evaluator_obs(case)
+    if op == 'session':
+        return _session_impl(case)
     raise ValueError(op)
 
 
@@ -687,6 +728,8 @@ def _q_of(case):
 
 def model_requests(case):
     op = case['op']
+    if op == 'session':
+        return _session_requests(case)
     if op in ('dual', 'correct1d', 'contrast'):
         return [dict(case, op='c06.' + op)]
     if op == 'extract':
@@ -814,6 +857,8 @@ def _result_model(case, a):
 
 def model_result(case, answers):
     op = case['op']
+    if op == 'session':
+        return _session_model(case, answers)
     a = answers[0]
     if op in ('dual', 'correct1d', 'contrast'):
         return a
@@ -936,6 +981,8 @@ def compare(case, impl, model):
     op = case['op']
     if isinstance(model, dict) and 'model_error' in model:
         return f'model error {model}'
+    if op == 'session':
+        return _session_compare(case, impl, model)
     if op in ('dual', 'correct1d'):
         m = float(unrat(model))
         return None if close(impl, m, RTOL, ATOL) else f'impl {impl!r} != model {model}'
@@ -990,6 +1037,8 @@ def features(case, impl):
     op = case['op']
     br = []
     f = {'op': op}
+    if op == 'session':
+        return _session_features(case)
     if op == 'dual':
         k = (case['n_rdm'] is not None) + (case['n_pattern'] is not None)
         br.append(['dual:plain', 'dual:one_n', 'dual:small_sample'][k])
@@ -1387,7 +1436,9 @@ def _oracle_result(case):
             ('t_test_nc', iu.t_test_nc(E, res.noise_ceil_var[:, 0], c, res.dof),
              iu.t_test_nc(c + 1.5 * (E - c), res.noise_ceil_var[:, 0], c, res.dof))]
     for name, p0, p1 in checks:
-        if np.any(np.asarray(p1) > np.asarray(p0) + 1e-9):
+        # tolerance of a p-value (PRTOL): with a variance at the eps clamp the rounding noise of an effect
+        # that is zero up to rounding is amplified by 1/sqrt(eps) in t, i.e. ~1e-8 in p
+        if np.any(np.asarray(p1) > np.asarray(p0) + 1e-7):
             return _bad(f'{name}: a larger effect at equal variance gives a larger p-value',
                         _lst(p1), _lst(p0), violated='monotone')
     # contract of the external CDF, sampled
@@ -1583,6 +1634,8 @@ def oracle(case):
         return _oracle_fixed(case)
     if op == 'evaluator':
         return _oracle_evaluator(case)
+    if op == 'session':
+        return _session_oracle(case)
     raise ValueError(op)
 
 
@@ -1592,6 +1645,8 @@ def shrink(case, still_fails):
     """fewer bootstrap samples / subjects, the identity permutation, simpler ceilings"""
     op = case['op']
     cur = case
+    if op == 'session':
+        return _session_shrink(case, still_fails)
     if op in ('result', 'boot', 'ranksum'):
         if cur['perm'] != sorted(cur['perm']):
             c = dict(cur, perm=sorted(cur['perm']))
@@ -1635,4 +1690,697 @@ def shrink(case, still_fails):
                 cur = c
             else:
                 break
+    return cur
+
+
+# ================================================================ round 4: sessions
+#
+# One Result object is queried by a list of calls.  Every call is judged on its own: the oracle compares
+# it with the stand-alone call on a FRESH object built from pristine copies of the case's numbers (and
+# runs the single-call oracle of the base case, so that the stand-alone values are the classical
+# statistics / contrasts the property demands); the correspondence compares it with the model's
+# stand-alone value (justified by `session_calls_independent`).  Content of the object, the arrays handed
+# to the constructor and every answer handed out earlier must be bit-identical after every call.
+
+import rsatoolbox.util.rdm_utils as _rdm_utils  # noqa: E402
+
+TT_CODE = {'t-test': 0, 'bootstrap': 1, 'ranksum': 2}
+_STATE_MODULES = [iu, rmatrix, rresult, _rdm_utils]
+
+
+def _containers():
+    for mod in _STATE_MODULES:
+        for name, v in list(vars(mod).items()):
+            if name.startswith('__'):
+                continue
+            yield mod.__name__ + '.' + name, v
+            if isinstance(v, type) and getattr(v, '__module__', None) == mod.__name__:
+                for n2, v2 in list(vars(v).items()):
+                    if not n2.startswith('__'):
+                        yield f'{mod.__name__}.{name}.{n2}', v2
+
+
+_BASELINE = {k: copy.deepcopy(v) for k, v in _containers() if isinstance(v, (dict, list, set))}
+
+
+def _reset_state():
+    """best effort: bring module-level caches of the anchored modules back to their state at import, so
+    that a session (and its replay in a fresh process) is self-contained.  Only sessions do this; the
+    single-call cases keep running in whatever state the process is in."""
+    for k, v in _containers():
+        f = getattr(v, 'cache_clear', None)
+        if callable(f):
+            try:
+                f()
+            except Exception:  # noqa: BLE001
+                pass
+        if isinstance(v, (dict, list, set)):
+            base = _BASELINE.get(k)
+            try:
+                v.clear()
+                if base:
+                    (v.update if isinstance(v, (dict, set)) else v.extend)(copy.deepcopy(base))
+            except Exception:  # noqa: BLE001
+                pass
+
+
+def _gen_session(rng, tier):
+    flavour = rng.choice(['result', 'result', 'result', 'ranksum', 'fixed'])
+    if flavour == 'fixed':
+        m = rng.choice([2, 2, 3, 4])
+        n = rng.randint(3, 9)
+        generic = rng.random() < 0.5
+        if generic:
+            x = [[rng.uniform(-0.25, 0.75) for _ in range(n)] for _ in range(m)]
+            nc = [rng.uniform(0.25, 0.7), rng.uniform(0.75, 1.0)]
+        else:
+            x = [[rng.randint(-16, 48) / 64 for _ in range(n)] for _ in range(m)]
+            nc = [rng.randint(16, 48) / 64, rng.randint(48, 64) / 64]
+        base = {'flavour': 'fixed', 'x': x, 'n_cond': rng.randint(3, 12), 'nc': nc}
+        tts = ['t-test'] + (['ranksum'] if generic else [])
+    elif flavour == 'result':
+        while True:
+            base = _gen_result(rng, tier)
+            if base['var'] is not None and base['cv_method'] not in ('fixed', 'crossvalidation'):
+                break
+        base.pop('op')
+        base.pop('perm')
+        base.pop('ci_pct')
+        ev = _arr(base['evals'])
+        if rng.random() < 0.35 and ev.ndim > 2:
+            # exactly 2-D float64 evaluations (eval_bootstrap*, hand-built results): np.asarray hands
+            # the stored array itself to the tests
+            whole = np.all(np.isnan(ev.reshape(ev.shape[0], -1)), axis=1)
+            ev = ev.reshape(ev.shape[0], ev.shape[1], -1)[:, :, 0].copy()
+            ev[np.isnan(ev)] = 0.25               # a NaN fold: some value (2-D arrays have no folds)
+            if np.sum(~whole) >= 2:
+                ev[whole] = np.nan                # failed bootstrap samples stay whole NaN rows
+            base['evals'] = _lst(ev)
+        failed = np.all(np.isnan(ev.reshape(ev.shape[0], -1)), axis=1)
+        ncl = _arr(base['noise_ceiling'])
+        if ncl.ndim == 2:
+            # per-sample ceiling: undefined exactly for the failed bootstrap samples
+            fill = np.array([[0.5], [1.25]])
+            ncl = np.where(np.isnan(ncl), fill, ncl)
+            ncl[:, failed] = np.nan
+            base['noise_ceiling'] = _lst(ncl)
+        base['flavour'] = 'result'
+        tts = ['t-test', 'bootstrap']
+    else:
+        while True:
+            rs = _gen_ranksum(rng, tier)
+            if len(rs['perm']) >= 2:
+                break
+        m = len(rs['perm'])
+        kind = rng.choice(['1d', '2d', '3d'])
+        nc_rows = rng.random() < 0.5
+        nB = len(rs['evals'])
+        base = {'flavour': 'ranksum', 'evals': rs['evals'], 'noise_ceiling': rs['noise_ceiling'],
+                'mode': rs['mode'], 'cv_method': 'fixed' if nB == 1 else 'bootstrap_crossval',
+                'var': _gen_var(rng, m, kind, nc_rows), 'var_kind': kind, 'nc_rows': nc_rows,
+                'dof': rng.randint(2, 30), 'n_rdm': _opt_n(rng), 'n_pattern': _opt_n(rng)}
+        tts = ['t-test', 'ranksum']
+    m = len(base['x']) if flavour == 'fixed' else len(base['evals'][0])
+    if flavour != 'fixed' and rng.random() < 0.3:
+        # the evaluators record a count AFTER the variances were extracted (eval_bootstrap_rdm:
+        # result.n_pattern = data.n_cond): the reported variances stay the extracted ones
+        which = rng.choice(['n_rdm', 'n_pattern'])
+        base[which] = None
+        base['late'] = {which: rng.randint(2, 30)}
+    # covariance inputs of every kind for the same model count (extract steps)
+    base['extract'] = {}
+    for kind in ('1d', '2d', '3d'):
+        nc = rng.random() < 0.5
+        base['extract'][kind] = {'var': _gen_var(rng, m, kind, nc), 'nc': nc,
+                                 'n_rdm': _opt_n(rng), 'n_pattern': _opt_n(rng)}
+    pool = []
+    for tt in tts:
+        pool += [['test_all', tt], ['test_pairwise', tt], ['test_zero', tt], ['test_noise', tt],
+                 ['util.all_tests', tt], ['util.pair_tests', tt], ['util.zero_tests', tt], ['util.nc_tests', tt]]
+    pool += [['get_means'], ['get_sem'], ['get_errorbars', 'sem'], ['util.get_errorbars', 'sem'],
+             ['get_model_var'], ['get_noise_ceil'], ['reload'], ['rebuild'],
+             ['extract', '1d'], ['extract', '2d'], ['extract', '3d']]
+    if flavour != 'fixed':
+        for lv in rng.sample([None, 50, 68.27, 90, 95, 99, 99.9], 2):
+            pool += [['get_ci', lv], ['get_errorbars', lv], ['util.get_errorbars', lv]]
+    steps = [list(rng.choice(pool)) for _ in range(rng.randint(8, 14))]
+
+    def weave(pattern):
+        pos = sorted(rng.sample(range(len(steps) + 1), len(pattern)))
+        for off, (p_, st) in enumerate(zip(pos, pattern)):
+            steps.insert(p_ + off, list(st))
+    if 'bootstrap' in tts and rng.random() < 0.6:
+        # the ceiling test first, then something that reads the evaluations
+        weave([[rng.choice(['test_noise', 'test_all', 'util.nc_tests', 'util.all_tests']), 'bootstrap'],
+               rng.choice([['get_means'], ['test_zero', 't-test'], ['test_noise', 'bootstrap'],
+                           ['test_zero', 'bootstrap']])])
+    if rng.random() < 0.6:
+        # a 1-D covariance input, then the same model count with a covariance matrix / the pair test
+        weave([['extract', '1d'], rng.choice([['extract', '2d'], ['extract', '3d'], ['test_pairwise', 't-test'],
+                                              ['rebuild'], ['reload']])])
+    if flavour != 'fixed' and rng.random() < 0.5:
+        lv = rng.sample([None, 50, 68.27, 90, 99], 2)
+        route = rng.choice(['get_ci', 'get_errorbars', 'util.get_errorbars'])
+        weave([[route, lv[0]], [route, lv[1]]])
+    if rng.random() < 0.5:
+        weave([['reload'], rng.choice([['get_sem'], ['test_zero', 't-test'], ['get_errorbars', 'sem']])])
+    if rng.random() < 0.7:
+        steps.append(list(steps[rng.randrange(len(steps))]))      # the same question again
+    # the rank-sum tests re-run scipy's exact test per pair: a few are enough
+    seen_rs = 0
+    kept = []
+    for st in steps:
+        if len(st) > 1 and st[1] == 'ranksum':
+            seen_rs += 1
+            if seen_rs > 4:
+                continue
+        kept.append(st)
+    return {'op': 'session', 'base': base, 'steps': kept}
+
+
+# ---------------------------------------------------------------- running a session on the real code
+
+def _bit_same(a, b):
+    if a is None or b is None:
+        return a is None and b is None
+    a, b = np.asarray(a), np.asarray(b)
+    return bool(a.dtype == b.dtype and a.shape == b.shape and np.array_equal(a, b, equal_nan=True))
+
+
+def _deep_same(a, b):
+    if isinstance(a, dict) and isinstance(b, dict):
+        return a.keys() == b.keys() and all(_deep_same(a[k], b[k]) for k in a)
+    if isinstance(a, (list, tuple)) and isinstance(b, (list, tuple)):
+        return len(a) == len(b) and all(_deep_same(x, y) for x, y in zip(a, b))
+    if isinstance(a, np.ndarray) or isinstance(b, np.ndarray):
+        return _bit_same(a, b)
+    return a is b or a == b or (isinstance(a, float) and isinstance(b, float) and math.isnan(a) and math.isnan(b))
+
+
+def _session_core(base):
+    """the base as a single-call case (no permutation, default confidence level)"""
+    m = len(base['x']) if base['flavour'] == 'fixed' else len(base['evals'][0])
+    core = {k: v for k, v in base.items() if k not in ('extract', 'late', 'flavour')}
+    core['perm'] = list(range(m))
+    core.setdefault('ci_pct', None)
+    return core
+
+
+def _session_new(base):
+    """a fresh object from pristine copies of the case's numbers; returns the object, the arrays that
+    were handed to the constructor and pristine copies of them (never passed to the library)"""
+    if base['flavour'] == 'fixed':
+        x = base['x']
+        m, n, c = len(x), len(x[0]), base['n_cond']
+        npair = c * (c - 1) // 2
+        data = RDMs(np.arange(n * npair, dtype=float).reshape(n, npair) + 1)
+        models = [ModelFixed(f'm{k}', np.full(npair, float(k))) for k in range(m)]
+        with _FixedPatch(copy.deepcopy(x), list(base['nc'])):
+            r = revaluate.eval_fixed(models, data, method='cosine')
+        return r, {}, {'evaluations': np.array([x], dtype=float),
+                       'noise_ceiling': np.array(base['nc'], dtype=float), 'variances': None}
+    ev_in, nc_in = _arr(base['evals']), _arr(base['noise_ceiling'])
+    var_in = np.array(base['var'], dtype=float)
+    with warnings.catch_warnings():
+        warnings.simplefilter('ignore')
+        r = rresult.Result(_models(ev_in.shape[1]), ev_in, 'cosine', base['cv_method'], nc_in,
+                           variances=var_in, dof=base['dof'], n_rdm=base['n_rdm'], n_pattern=base['n_pattern'])
+    for k, v in (base.get('late') or {}).items():
+        setattr(r, k, v)
+    inputs = {'evaluations': ev_in, 'noise_ceiling': nc_in, 'variances': var_in}
+    pristine = {'evaluations': _arr(base['evals']), 'noise_ceiling': _arr(base['noise_ceiling']),
+                'variances': np.array(base['var'], dtype=float)}
+    return r, inputs, pristine
+
+
+def _eb_name(lv):
+    return 'sem' if lv == 'sem' else ('ci' if lv is None else f'ci{lv}')
+
+
+def _summary_of(r):
+    return {'model_var': r.model_var, 'diff_var': r.diff_var, 'nc_var': r.noise_ceil_var,
+            'sem': r.get_sem(), 'means': r.get_means()}
+
+
+def _do_step(r, step, base, inputs):
+    """one call; returns (object to go on with, raw answer)"""
+    route = step[0]
+    a = step[1] if len(step) > 1 else None
+    if route == 'test_all':
+        return r, list(r.test_all(a))
+    if route == 'test_pairwise':
+        return r, r.test_pairwise(a)
+    if route == 'test_zero':
+        return r, r.test_zero(a)
+    if route == 'test_noise':
+        return r, r.test_noise(a)
+    # the wrappers as the plotting code calls them: with the object's own arrays
+    if route == 'util.all_tests':
+        return r, list(iu.all_tests(r.evaluations, r.noise_ceiling, a, model_var=r.model_var, diff_var=r.diff_var,
+                                    noise_ceil_var=r.noise_ceil_var, dof=r.dof))
+    if route == 'util.pair_tests':
+        return r, iu.pair_tests(r.evaluations, a, r.diff_var, r.dof)
+    if route == 'util.zero_tests':
+        return r, iu.zero_tests(r.evaluations, a, r.model_var, r.dof)
+    if route == 'util.nc_tests':
+        return r, iu.nc_tests(r.evaluations, r.noise_ceiling, a, r.noise_ceil_var, r.dof)
+    if route == 'get_means':
+        return r, r.get_means()
+    if route == 'get_sem':
+        return r, r.get_sem()
+    if route == 'get_ci':
+        return r, list(r.get_ci(0.95 if a is None else float(a) / 100, 't-test'))
+    if route == 'get_errorbars':
+        return r, list(r.get_errorbars(_eb_name(a), 't-test'))
+    if route == 'util.get_errorbars':
+        return r, iu.get_errorbars(r.model_var, r.evaluations, r.dof, _eb_name(a), 't-test')
+    if route == 'get_model_var':
+        return r, r.get_model_var()
+    if route == 'get_noise_ceil':
+        return r, r.get_noise_ceil()
+    if route == 'extract':
+        e = base['extract'][a]
+        mv, dv, nv = iu.extract_variances(np.array(e['var'], dtype=float), e['nc'], e['n_rdm'], e['n_pattern'])
+        return r, {'model': mv, 'diff': dv, 'nc': nv}
+    if route == 'reload':
+        r2 = rresult.result_from_dict(r.to_dict())
+        return r2, _summary_of(r2)
+    if route == 'rebuild':
+        # a second Result from the very arrays the first one was built from
+        if base['flavour'] == 'fixed':
+            # eval_fixed passes n_rdm only; it records n_pattern after the variances were extracted
+            r2 = rresult.Result(r.models, r.evaluations, r.method, r.cv_method, r.noise_ceiling,
+                                variances=r.variances, dof=r.dof, n_rdm=len(base['x'][0]), n_pattern=None)
+        else:
+            r2 = rresult.Result(r.models, inputs['evaluations'], 'cosine', base['cv_method'],
+                                inputs['noise_ceiling'], variances=inputs['variances'], dof=base['dof'],
+                                n_rdm=base['n_rdm'], n_pattern=base['n_pattern'])
+        return r, _summary_of(r2)
+    raise ValueError(route)
+
+
+def _canon_ans(x):
+    if isinstance(x, dict) and 'exc' not in x:
+        return {k: _canon(v) for k, v in x.items()}
+    return _canon(x)
+
+
+def _standalone(base, step):
+    """the call on a fresh object of its own"""
+    def f():
+        r, inputs, _ = _session_new(base)
+        return _canon_ans(_do_step(r, step, base, inputs)[1])
+    return _catch(f)
+
+
+CONTENT = ('evaluations', 'noise_ceiling', 'variances', 'model_var', 'diff_var', 'noise_ceil_var')
+
+
+def _run_session(base, steps):
+    """the calls one after the other on ONE object.  Per step: canonical answer, what changed in the
+    object / in the constructor's arguments, which earlier answers changed."""
+    _reset_state()
+
+    def build():
+        r0, _, _ = _session_new(base)               # reference object: only its derived fields are read, once
+        derived = {k: copy.deepcopy(getattr(r0, k)) for k in ('variances', 'model_var', 'diff_var', 'noise_ceil_var')}
+        scal0 = (int(r0.dof) if r0.dof is not None else None)
+        r, inputs, pristine = _session_new(base)
+        pristine = dict(pristine)
+        if pristine.get('variances') is None:
+            pristine['variances'] = derived['variances']
+        for k in ('model_var', 'diff_var', 'noise_ceil_var'):
+            pristine[k] = derived[k]
+        out, handed = [], []
+        for k, step in enumerate(steps):
+            with warnings.catch_warnings():
+                warnings.simplefilter('ignore')
+                try:
+                    r_next, raw = _do_step(r, step, base, inputs)
+                    ans = _canon_ans(raw)
+                except (ValueError, TypeError, AssertionError, IndexError, ZeroDivisionError) as exc:
+                    r_next, raw, ans = r, None, {'exc': type(exc).__name__}
+            r = r_next
+            changed = [f for f in CONTENT if not _bit_same(getattr(r, f, None), pristine[f])]
+            changed += ['argument ' + f for f, v in inputs.items() if not _bit_same(v, pristine[f])]
+            if (int(r.dof) if r.dof is not None else None) != scal0:
+                changed.append('dof')
+            stale = [j for j, (rw, snap) in enumerate(handed) if not _deep_same(rw, snap)]
+            handed.append((raw, copy.deepcopy(raw)))
+            out.append({'ans': ans, 'changed': changed, 'stale': stale})
+        return out
+    return _catch(build)
+
+
+def _session_impl(case):
+    return _run_session(case['base'], case['steps'])
+
+
+# ---------------------------------------------------------------- model side of a session
+
+def _levels(case):
+    lv = []
+    for st in case['steps']:
+        if st[0] in ('get_ci', 'get_errorbars', 'util.get_errorbars') and st[1] != 'sem' and st[1] not in lv:
+            lv.append(st[1])
+    return lv or [None]
+
+
+def _session_plan(case):
+    """(tag, driver request) in a fixed order"""
+    base, steps = case['base'], case['steps']
+    core = _session_core(base)
+    m = len(core['perm'])
+    plan = []
+    if base['flavour'] == 'fixed':
+        flat_ev = [v for row in base['x'] for v in row]
+        flat_nc = list(base['nc'])
+        nvars = m * m
+    else:
+        flat_ev = np.asarray(_arr(base['evals'])).ravel().tolist()
+        flat_nc = np.asarray(_arr(base['noise_ceiling'])).ravel().tolist()
+        nvars = int(np.asarray(base['var'], dtype=float).size)
+    calls = []
+    for st in steps:
+        a = st[1] if len(st) > 1 else None
+        arg = TT_CODE[a] if a in TT_CODE else {'1d': 1, '2d': 2, '3d': 3, 'sem': 0}.get(a, 0) if (a is None or isinstance(a, str)) \
+            else int(round(float(a) * 100))
+        calls.append({'route': st[0], 'arg': arg, 'key': m})
+    plan.append(('session', {'op': 'c06.session',
+                             'evals': [None if (isinstance(v, float) and math.isnan(v)) else k for k, v in enumerate(flat_ev)],
+                             'vars': list(range(nvars)),
+                             'ceil': [None if (isinstance(v, float) and math.isnan(v)) else k for k, v in enumerate(flat_nc)],
+                             'calls': calls}))
+    tts = {st[1] for st in steps if len(st) > 1 and st[1] in TT_CODE}
+    if base['flavour'] == 'fixed':
+        plan.append(('fixed', model_requests(dict(core, op='fixed'))[0]))
+        core_rs = {'evals': [base['x']], 'noise_ceiling': [base['nc'][0], base['nc'][1]], 'perm': core['perm']}
+    else:
+        for lv in _levels(case):
+            plan.append((('t', lv), _result_req(dict(core, op='result', ci_pct=lv))))
+        if 'bootstrap' in tts:
+            plan.append(('boot', _result_req(dict(core, op='boot'))))
+        core_rs = core
+    if 'ranksum' in tts:
+        plan.append(('ranksum', _result_req(dict(core_rs, op='ranksum'))))
+    for kind in ('1d', '2d', '3d'):
+        if ['extract', kind] in steps:
+            e = base['extract'][kind]
+            plan.append((('extract', kind), model_requests(
+                {'op': 'extract', 'var': e['var'], 'm': m, 'nc': e['nc'], 'n_rdm': e['n_rdm'],
+                 'n_pattern': e['n_pattern']})[0]))
+    return plan
+
+
+def _session_requests(case):
+    return [req for _, req in _session_plan(case)]
+
+
+_SINGLE_IDX = {'test_pairwise': 0, 'test_zero': 1, 'test_noise': 2,
+               'util.pair_tests': 0, 'util.zero_tests': 1, 'util.nc_tests': 2}
+
+
+def _session_model(case, answers):
+    base, steps = case['base'], case['steps']
+    core = _session_core(base)
+    tags = [t for t, _ in _session_plan(case)]
+    got = dict(zip(tags, answers))
+    for t, a in got.items():
+        if isinstance(a, dict) and 'model_error' in a:
+            return {'model_error': f'{t}: {a["model_error"]}'}
+    sess = got['session']
+    if sess['cells'] != 0:
+        return {'model_error': f"hidden state cells in the anchored source: {sess['cells']}"}
+    for k, fl in enumerate(sess['calls']):
+        if not (fl['seen_pristine'] and fl['after_pristine'] and fl['memo_empty']) or fl['writes'] != 0:
+            return {'model_error': f'model session: call {k} {steps[k]} does not see / leave the original content '
+                                   f'(in-place writes on its path: {fl["writes"]})'}
+    # stand-alone values (licensed by Rsa.Props.C06.session_calls_independent)
+    tm = {}
+    if base['flavour'] == 'fixed':
+        fx = model_result(dict(core, op='fixed'), [got['fixed']])
+        tm[None] = fx
+    else:
+        for lv in _levels(case):
+            tm[lv] = _result_model(dict(core, op='result', ci_pct=lv), got[('t', lv)])
+            if isinstance(tm[lv], dict) and 'model_error' in tm[lv]:
+                return tm[lv]
+    t0 = tm[_levels(case)[0]] if base['flavour'] != 'fixed' else tm[None]
+    bm = _result_model(dict(core, op='boot'), got['boot']) if 'boot' in got else None
+    rm = _result_model(dict(core, op='ranksum'), got['ranksum']) if 'ranksum' in got else None
+    out = []
+    for st in steps:
+        route = st[0]
+        a = st[1] if len(st) > 1 else None
+        if route in ('test_all', 'util.all_tests', 'test_pairwise', 'test_zero', 'test_noise',
+                     'util.pair_tests', 'util.zero_tests', 'util.nc_tests'):
+            whole = route in ('test_all', 'util.all_tests')
+            idx = None if whole else _SINGLE_IDX[route]
+            if a == 't-test':
+                rk = {'test_all': 'test_all', 'util.all_tests': 'util.all_tests'}.get(
+                    route, 'util.single' if route.startswith('util') else 'accessors')
+                fam = t0['p_routes'][rk]
+            else:
+                src = bm if a == 'bootstrap' else rm
+                fam = [src['p_pair'], src['p_zero'], src['p_nc']]
+            out.append(list(fam) if whole else fam[idx])
+        elif route == 'get_means':
+            out.append(t0['means'])
+        elif route == 'get_sem':
+            out.append(t0['sem'])
+        elif route == 'get_model_var':
+            out.append(t0['model_var'])
+        elif route == 'get_noise_ceil':
+            out.append(_lst(_arr(base['noise_ceiling'])) if base['flavour'] != 'fixed' else list(base['nc']))
+        elif route == 'get_ci':
+            out.append(tm[a]['ci'])
+        elif route == 'get_errorbars':
+            out.append([t0['sem'], t0['sem']] if a == 'sem' else tm[a]['errorbars_ci'])
+        elif route == 'util.get_errorbars':
+            out.append([t0['sem'], t0['sem']] if a == 'sem' else tm[a]['errorbars_util_ci'])
+        elif route == 'extract':
+            out.append(model_result({'op': 'extract'}, [got[('extract', a)]]))
+        elif route in ('reload', 'rebuild'):
+            out.append({'model_var': t0['model_var'], 'diff_var': t0['diff_var'], 'nc_var': t0['nc_var'],
+                        'sem': t0['sem'], 'means': t0['means']})
+        else:
+            raise ValueError(route)
+    return {'steps': out}
+
+
+def _step_tol(step):
+    return (PRTOL, PATOL) if (len(step) > 1 and step[1] in TT_CODE) else (RTOL, ATOL)
+
+
+def _session_compare(case, impl, model):
+    if _is_exc(impl):
+        return f'implementation raised {impl["exc"]} building the session object'
+    for k, (st, got, want) in enumerate(zip(case['steps'], impl, model['steps'])):
+        where = f'call {k} {st[0]}({", ".join(str(x) for x in st[1:])})'
+        a, b = got['ans'], want
+        if got['changed']:
+            return f'{where}: after the call the object is not the original any more: {got["changed"]}'
+        if got['stale']:
+            return f'{where}: answers handed out by calls {got["stale"]} changed afterwards'
+        if b is None:
+            continue
+        if _is_exc(a):
+            return f'{where}: implementation raised {a["exc"]}'
+        if st[0] == 'util.get_errorbars' and st[1] != 'sem':
+            a, b = _abs(a), _abs(b)         # sign of the plotting helper's CI bars: see notes (round 3)
+        d = first_diff(a, b, *_step_tol(st), path=where)
+        if d:
+            return d
+    return None
+
+
+def _session_features(case):
+    base, steps = case['base'], case['steps']
+    br = set()
+    f = {'op': 'session', 'flavour': base['flavour'], 'n_steps': len(steps), 'late': bool(base.get('late'))}
+    names = {'test_all': 'test_all', 'test_pairwise': 'test_pairwise', 'test_zero': 'test_zero',
+             'test_noise': 'test_noise', 'util.all_tests': 'util_all', 'util.pair_tests': 'util_single',
+             'util.zero_tests': 'util_single', 'util.nc_tests': 'util_single', 'get_means': 'get_means',
+             'get_sem': 'get_sem', 'get_ci': 'get_ci', 'get_errorbars': 'errorbars',
+             'util.get_errorbars': 'util_errorbars', 'get_model_var': 'fields', 'get_noise_ceil': 'fields',
+             'reload': 'reload', 'rebuild': 'rebuild'}
+    seen = []
+    levels = set()
+    for st in steps:
+        a = st[1] if len(st) > 1 else None
+        br.add('session:' + (f'extract_{a}' if st[0] == 'extract' else names[st[0]]))
+        if a in TT_CODE:
+            br.add('session:' + {'t-test': 'ttest', 'bootstrap': 'bootstrap', 'ranksum': 'ranksum'}[a])
+        if st in seen:
+            br.add('session:repeat')
+        if ['extract', '1d'] in seen and (st in (['extract', '2d'], ['extract', '3d'], ['test_pairwise', 't-test'],
+                                                 ['test_all', 't-test'], ['rebuild'], ['reload'])):
+            br.add('session:after_extract_1d')
+        if any(s in seen for s in (['test_noise', 'bootstrap'], ['test_all', 'bootstrap'], ['util.nc_tests', 'bootstrap'],
+                                   ['util.all_tests', 'bootstrap'])):
+            br.add('session:after_test_noise_bootstrap')
+        if ['reload'] in seen:
+            br.add('session:after_reload')
+            if (base.get('late') or base['flavour'] == 'fixed') and st[0] in ('get_sem', 'get_errorbars', 'get_ci'):
+                br.add('session:late_reload_sem')       # a count recorded late, a reload, then the SEM
+        if a == 'bootstrap' and st[0] in ('test_noise', 'test_all', 'util.nc_tests', 'util.all_tests') \
+                and base['flavour'] == 'result' and np.asarray(_arr(base['noise_ceiling'])).ndim > 1 \
+                and any(s_ in seen for s_ in (['test_noise', 't-test'], ['util.nc_tests', 't-test'],
+                                              ['test_all', 't-test'], ['util.all_tests', 't-test'])):
+            br.add('session:ttest_then_bootstrap_nc')   # per-sample ceiling: t-test first, bootstrap test later
+        if st[0] in ('get_ci', 'get_errorbars', 'util.get_errorbars') and a != 'sem':
+            levels.add((st[0], a))
+        seen.append(st)
+    if any(len({lv for r_, lv in levels if r_ == route}) >= 2 for route in ('get_ci', 'get_errorbars', 'util.get_errorbars')):
+        br.add('session:two_levels')
+    if base['flavour'] == 'fixed':
+        br.add('session:fixed')
+        br.add('session:late_count')        # eval_fixed records n_pattern after the extraction
+        f['m'] = len(base['x'])
+    else:
+        ev = _arr(base['evals'])
+        f.update(m=ev.shape[1], ndim=ev.ndim)
+        if ev.ndim == 2:
+            br.add('session:evals_2d_f64')
+        if np.asarray(_arr(base['noise_ceiling'])).ndim > 1:
+            br.add('session:nc_per_sample')
+    if base.get('late'):
+        br.add('session:late_count')
+    f['branches'] = sorted(br)
+    return f
+
+
+# ---------------------------------------------------------------- oracle of a session
+
+def _session_base_oracle(case):
+    """the stand-alone values are what the property demands: the single-call oracle on the base"""
+    base = case['base']
+    core = _session_core(base)
+    tts = {st[1] for st in case['steps'] if len(st) > 1 and st[1] in TT_CODE}
+    if base['flavour'] == 'fixed':
+        r = _oracle_fixed(dict(core, op='fixed', reload=False))
+        if not r and 'ranksum' in tts:
+            r = _oracle_result({'op': 'ranksum', 'evals': [base['x']], 'noise_ceiling': [base['nc'][0], base['nc'][1]],
+                                'perm': core['perm']})
+        return r
+    r = _oracle_result(dict(core, op='result'))
+    if not r and 'bootstrap' in tts:
+        r = _oracle_result(dict(core, op='boot'))
+    if not r and 'ranksum' in tts:
+        r = _oracle_result(dict(core, op='ranksum'))
+    for kind in ('1d', '2d', '3d'):
+        if not r and ['extract', kind] in case['steps']:
+            e = base['extract'][kind]
+            r = _oracle_extract({'var': e['var'], 'nc': e['nc'], 'm': len(core['perm']), 'n_rdm': e['n_rdm'],
+                                 'n_pattern': e['n_pattern']})
+    return r
+
+
+def _direct_step_check(base, step, ans):
+    """sentences of the property that can be read off one answer without the library"""
+    if _is_exc(ans) or ans is None:
+        return None
+    route = step[0]
+    a = step[1] if len(step) > 1 else None
+    m = len(base['x']) if base['flavour'] == 'fixed' else len(base['evals'][0])
+    if route == 'get_means':
+        if base['flavour'] == 'fixed':
+            want = [sum(row) / len(row) for row in base['x']]
+        else:
+            want = _nan_aware_mean(base['evals'], base['cv_method'])
+        if all(w is not None for w in want) and first_diff(ans, want, 1e-9, 1e-12):
+            return _bad('get_means is not the NaN-aware average of the original evaluations', ans, want, violated='means')
+    if route in ('get_sem',) and np.any(np.asarray(ans, dtype=float) < 0):
+        return _bad('negative standard error', ans, violated='sem')
+    if a in TT_CODE:
+        fam = route.split('.')[-1]
+        if fam in ('test_all', 'all_tests'):
+            obs = dict(zip(FAMILIES, ans))
+            return _oracle_pvals(obs, f'{a} ({route})', m)
+        key = {'test_pairwise': 'p_pair', 'pair_tests': 'p_pair', 'test_zero': 'p_zero', 'zero_tests': 'p_zero',
+               'test_noise': 'p_nc', 'nc_tests': 'p_nc'}[fam]
+        return _oracle_pvals({key: ans}, f'{a} ({route})', m, keys=(key,))
+    return None
+
+
+def _session_oracle(case):
+    base, steps = case['base'], case['steps']
+    got = _run_session(base, steps)
+    if _is_exc(got):
+        return _bad('the session object cannot be built', got, violated='exception')
+    for k, (st, g) in enumerate(zip(steps, got)):
+        where = f'call {k} of the session, {st[0]}({", ".join(str(x) for x in st[1:])})'
+        before = [s_[0] for s_ in steps[:k]]
+        feat = dict(violated='session', step=st[0], call=k)
+        if g['changed']:
+            return _bad(f'{where}: the object no longer holds the original data afterwards: {g["changed"]}',
+                        g['changed'], 'evaluations, variances, noise ceiling, derived variances and the '
+                        'constructor arguments bit-identical', after=before, **feat)
+        if g['stale']:
+            return _bad(f'{where}: the answers handed out by calls {g["stale"]} changed afterwards',
+                        g['stale'], 'answers stay what they were', after=before, **feat)
+        _reset_state()
+        ref = _standalone(base, st)
+        if _is_exc(ref) and _is_exc(g['ans']):
+            continue
+        if _is_exc(g['ans']) != _is_exc(ref):
+            return _bad(f'{where}: raises / does not raise unlike the same call on a fresh object of the original data',
+                        g['ans'], ref, after=before, **feat)
+        a, b = g['ans'], ref
+        d = first_diff(a, b, 1e-11, 1e-14, st[0])
+        if d:
+            return _bad(f'{where}: differs from the same call on a fresh object of the original data '
+                        f'(calls before it: {before})', a, b, after=before, diff=d, **feat)
+        r = _direct_step_check(base, st, g['ans'])
+        if r:
+            r['what'] = f'{where}: ' + r['what']
+            return r
+    _reset_state()
+    r = _session_base_oracle(case)
+    if r:
+        r['what'] = 'stand-alone call on the data of the session: ' + r['what']
+        r['features'] = dict(r.get('features', {}), session_base=True)
+    return r
+
+
+# ---------------------------------------------------------------- shrinking a session
+
+def _fresh_process_fails(case):
+    """the oracle on `case` in a new interpreter (nothing cached from this run): True / False / None"""
+    here = os.path.dirname(os.path.dirname(os.path.abspath(__file__)))
+    repo = os.environ.get('RSA_REPO', '/repo')
+    code = ('import sys, json\n'
+            f'sys.path[:0] = [{os.path.join(repo, "src")!r}, {here!r}]\n'
+            'import engines.C06 as e\n'
+            'c = json.load(sys.stdin)\n'
+            "print('SESSION-FAILS' if e.oracle(c) else 'SESSION-HOLDS')\n")
+    try:
+        p = subprocess.run([sys.executable, '-c', code], input=json.dumps(case).encode(), capture_output=True,
+                           timeout=120, env=dict(os.environ, TQDM_DISABLE='1'))
+    except Exception:  # noqa: BLE001
+        return None
+    out = p.stdout.decode(errors='replace')
+    return True if 'SESSION-FAILS' in out else False if 'SESSION-HOLDS' in out else None
+
+
+def _session_shrink(case, still_fails):
+    """the shortest failing call sequence (greedy removal of single calls, then of the late count), checked
+    in a fresh process so that the replay does not depend on what this process has cached"""
+    cur = copy.deepcopy(case)
+    changed = True
+    while changed and len(cur['steps']) > 1:
+        changed = False
+        for k in reversed(range(len(cur['steps']))):
+            c = copy.deepcopy(cur)
+            del c['steps'][k]
+            if c['steps'] and still_fails(c):
+                cur, changed = c, True
+                break
+    if cur['base'].get('late'):
+        c = copy.deepcopy(cur)
+        late = c['base'].pop('late')
+        if still_fails(c):
+            cur = c
+    if cur != case and _fresh_process_fails(cur) is False:
+        return case            # the short sequence failed only because of what this process had cached
     return cur
